@@ -46,8 +46,14 @@ fn run_suite<C: Suite>(ctx: &mut Ctx) {
     }
 }
 
-fn decide<C: Suite>(ctx: &mut Ctx, cell: &str, scheme: Scheme, variant: &str, expect: bool, ms: &MultiSignature<C>, mpk: MultiPublicKey<C>, msg: &[u8]) {
-    let mpkb = enc_pt(&mpk.0);
+fn decide<C: Suite>(ctx: &mut Ctx, cell: &str, scheme: Scheme, variant: &str, expect: bool, ms: &MultiSignature<C>, keys: &[PublicKey<C>], msg: &[u8]) {
+    // library: accumulate the listed keys and verify; reference: its OWN sum of the listed keys
+    let mpk = MultiPublicKey::<C>::from_public_keys(keys);
+    let rsum = refimpl::sum(keys.iter().map(|k| rpk_of::<C>(k)));
+    let mpkb = rsum.enc();
+    ctx.expect(enc_pt(&mpk.0) == mpkb, &format!("C07/mpk-not-sum/{}/{}", C::NAME, scheme.name()), || {
+        json!({"what":"the accumulated public key is not the group sum of the listed keys","variant":variant,"keys":keys.len(),"lib":hex::encode(enc_pt(&mpk.0)),"ref":hex::encode(&mpkb)})
+    });
     let msb = enc_pt(ms.as_raw_value());
     let r = refimpl::verify::<C::R>(scheme, &mpkb, &msb, msg);
     if r != expect {
@@ -109,20 +115,20 @@ fn one_set<C: Suite>(ctx: &mut Ctx, g: u64, scheme: Scheme, cnt: usize, idx: usi
             ctx.expect(enc_pt(m2.as_raw_value()) == want.enc(), &format!("C07/msig-not-sum/{n}/{sn}"), || {
                 json!({"what":"multi-signature with a repeated part is not the plain group sum of its parts","n":cnt + 1,"variant":vn,"lib":hex::encode(enc_pt(m2.as_raw_value())),"ref":hex::encode(want.enc())})
             });
-            decide::<C>(ctx, &format!("{n}/{sn}/honest"), scheme, vn, true, &m2, MultiPublicKey::from_public_keys(&p2), &msg);
+            decide::<C>(ctx, &format!("{n}/{sn}/honest"), scheme, vn, true, &m2, &p2, &msg);
             // and NOT under the key list without the repetition
-            decide::<C>(ctx, &format!("{n}/{sn}/omitted"), scheme, &format!("{vn} / key list without the repetition"), false, &m2, mpk, &msg);
+            decide::<C>(ctx, &format!("{n}/{sn}/omitted"), scheme, &format!("{vn} / key list without the repetition"), false, &m2, &pks, &msg);
             ctx.hit(&format!("{n}/{sn}/sum"), &[vn.as_bytes(), &want.enc()]);
         }
     }
-    decide::<C>(ctx, &format!("{n}/{sn}/honest"), scheme, "honest", true, &ms, mpk, &msg);
+    decide::<C>(ctx, &format!("{n}/{sn}/honest"), scheme, "honest", true, &ms, &pks, &msg);
     let mut rp = pks.clone();
     rp.reverse();
-    decide::<C>(ctx, &format!("{n}/{sn}/honest-reordered"), scheme, "keys reversed", true, &ms, MultiPublicKey::from_public_keys(&rp), &msg);
+    decide::<C>(ctx, &format!("{n}/{sn}/honest-reordered"), scheme, "keys reversed", true, &ms, &rp, &msg);
     let mut rs = sigs.clone();
     gen::shuffle(&mut rs, &mut rng);
     if let Ok(ms2) = MultiSignature::<C>::from_signatures(&rs) {
-        decide::<C>(ctx, &format!("{n}/{sn}/honest-reordered"), scheme, "signatures shuffled", true, &ms2, mpk, &msg);
+        decide::<C>(ctx, &format!("{n}/{sn}/honest-reordered"), scheme, "signatures shuffled", true, &ms2, &pks, &msg);
     }
     let positions: Vec<usize> = if cnt <= 16 {
         (0..cnt).collect()
@@ -140,35 +146,35 @@ fn one_set<C: Suite>(ctx: &mut Ctx, g: u64, scheme: Scheme, cnt: usize, idx: usi
     for &pos in &positions {
         let mut p = pks.clone();
         p.remove(pos);
-        decide::<C>(ctx, &format!("{n}/{sn}/omitted"), scheme, &format!("signer {pos} omitted from key"), false, &ms, MultiPublicKey::from_public_keys(&p), &msg);
+        decide::<C>(ctx, &format!("{n}/{sn}/omitted"), scheme, &format!("signer {pos} omitted from key"), false, &ms, &p, &msg);
         let mut p = pks.clone();
         p[pos] = extra.public_key();
-        decide::<C>(ctx, &format!("{n}/{sn}/replaced"), scheme, &format!("signer {pos} replaced in key"), false, &ms, MultiPublicKey::from_public_keys(&p), &msg);
+        decide::<C>(ctx, &format!("{n}/{sn}/replaced"), scheme, &format!("signer {pos} replaced in key"), false, &ms, &p, &msg);
         // signature side: signer's part missing, key complete
         let mut s = sigs.clone();
         s.remove(pos);
         if s.len() >= 2 {
             if let Ok(m2) = MultiSignature::<C>::from_signatures(&s) {
-                decide::<C>(ctx, &format!("{n}/{sn}/omitted"), scheme, &format!("signer {pos} omitted from signature"), false, &m2, mpk, &msg);
+                decide::<C>(ctx, &format!("{n}/{sn}/omitted"), scheme, &format!("signer {pos} omitted from signature"), false, &m2, &pks, &msg);
             }
         }
     }
     let mut p = pks.clone();
     p.push(extra.public_key());
-    decide::<C>(ctx, &format!("{n}/{sn}/added"), scheme, "key added", false, &ms, MultiPublicKey::from_public_keys(&p), &msg);
+    decide::<C>(ctx, &format!("{n}/{sn}/added"), scheme, "key added", false, &ms, &p, &msg);
     let mut s = sigs.clone();
     s.push(extra.sign(lscheme(scheme), &msg).expect("sign"));
     if let Ok(m2) = MultiSignature::<C>::from_signatures(&s) {
-        decide::<C>(ctx, &format!("{n}/{sn}/added"), scheme, "signature added", false, &m2, mpk, &msg);
+        decide::<C>(ctx, &format!("{n}/{sn}/added"), scheme, "signature added", false, &m2, &pks, &msg);
         // and the complete enlarged set is valid again
-        decide::<C>(ctx, &format!("{n}/{sn}/honest"), scheme, "enlarged set", true, &m2, MultiPublicKey::from_public_keys(&p), &msg);
+        decide::<C>(ctx, &format!("{n}/{sn}/honest"), scheme, "enlarged set", true, &m2, &p, &msg);
     }
     let mut m2 = msg.clone();
     m2.push(0);
-    decide::<C>(ctx, &format!("{n}/{sn}/other-msg"), scheme, "message extended", false, &ms, mpk, &m2);
+    decide::<C>(ctx, &format!("{n}/{sn}/other-msg"), scheme, "message extended", false, &ms, &pks, &m2);
     if !msg.is_empty() {
         let b = gen::below(&mut rng, msg.len() * 8);
-        decide::<C>(ctx, &format!("{n}/{sn}/other-msg"), scheme, "message bit flipped", false, &ms, mpk, &gen::flip_bit(&msg, b));
+        decide::<C>(ctx, &format!("{n}/{sn}/other-msg"), scheme, "message bit flipped", false, &ms, &pks, &gen::flip_bit(&msg, b));
     }
 }
 
